@@ -138,6 +138,98 @@ def rule_literal_keys(ck, repo):
                                       file=f.file, line=sub.lineno, func=f.qualname, construct=src(sub))
 
 
+def _call_deps(fnode, expr, at):
+    """self-method names the value of `expr` (evaluated at statement `at`) depends on: through local assignments, in-place extensions
+    (x.append(y)), walrus bindings, and the tests of the if-statements enclosing those statements (control dependence). Flow-insensitive."""
+    parents = {}
+    for p_ in ast.walk(fnode):
+        for ch in ast.iter_child_nodes(p_):
+            parents[ch] = p_
+
+    def guards(node):
+        out = []
+        p_ = parents.get(node)
+        while p_ is not None and p_ is not fnode:
+            if isinstance(p_, (ast.If, ast.While)):
+                out.append(p_.test)
+            p_ = parents.get(p_)
+        return out
+
+    defs = {}
+    for n in ast.walk(fnode):
+        if isinstance(n, ast.Assign):
+            for t in n.targets:
+                for tt in ast.walk(t):
+                    if isinstance(tt, ast.Name):
+                        defs.setdefault(tt.id, []).append((n.value, n))
+        elif isinstance(n, ast.NamedExpr):
+            defs.setdefault(n.target.id, []).append((n.value, n))
+        elif isinstance(n, ast.Call) and isinstance(n.func, ast.Attribute) and n.func.attr in ('append', 'extend', 'insert') and isinstance(n.func.value, ast.Name):
+            for a in n.args:
+                defs.setdefault(n.func.value.id, []).append((a, n))
+    def branches(node):
+        out = {}
+        ch, p_ = node, parents.get(node)
+        while p_ is not None:
+            if isinstance(p_, ast.If):
+                if any(ch is x for x in p_.body):
+                    out[id(p_)] = 'body'
+                elif any(ch is x for x in p_.orelse):
+                    out[id(p_)] = 'orelse'
+            ch, p_ = p_, parents.get(p_)
+        return out
+
+    here = branches(at)
+
+    def exclusive(stmt):
+        b = branches(stmt)
+        return any(k in here and here[k] != v for k, v in b.items())
+
+    calls, seen, todo = set(), set(), [expr] + guards(at)
+    while todo:
+        e = todo.pop()
+        for n in ast.walk(e):
+            if isinstance(n, ast.Call) and isinstance(n.func, ast.Attribute) and src(n.func.value) == 'self':
+                calls.add(n.func.attr)
+            if isinstance(n, ast.Name) and n.id not in seen:
+                seen.add(n.id)
+                for v, stmt in defs.get(n.id, ()):
+                    if exclusive(stmt):
+                        continue  # a definition in the other arm of an if cannot reach this statement
+                    todo.append(v)
+                    todo.extend(guards(stmt))
+    return calls
+
+
+def rule_seeded_string_complete(ck, repo, R):
+    """every place that pre-seeds the cached canonical string builds it from everything the owner (__str__) builds it from"""
+    ck.rule(R, 'Smiles.__str__ composes its value from _smiles(...) and the CXSMILES block _format_cxsmiles(order) (radicals live only there); every '
+               'other method that stores into the __str__ cache slot composes the stored value from the same calls (data or control dependence), '
+               'so the string served from the cache equals the string a first call would compute')
+    sm = repo.cls('chython.algorithms.smiles:Smiles')
+    owner = sm.method('__str__')
+    ck.require(owner is not None, 'Smiles.__str__ vanished')
+    rets = [n for n in ast.walk(owner.node) if isinstance(n, ast.Return) and n.value is not None]
+    ck.require(len(rets) == 1, 'Smiles.__str__: expected one return')
+    need = _call_deps(owner.node, rets[0].value, rets[0]) & {'_smiles', '_format_cxsmiles', '_smiles_order'}
+    if not {'_smiles', '_format_cxsmiles'} <= need:
+        ck.defer(f'Smiles.__str__ no longer composes _smiles and _format_cxsmiles ({sorted(need)}); rule {R} cannot compare the seeding sites')
+        return
+    n_st = 0
+    for f in [x for fs in sm.methods.values() for x in fs]:
+        for st in ast.walk(f.node):
+            if isinstance(st, ast.Assign) and any(isinstance(t, ast.Subscript) and src(t.value) == 'self.__dict__' and isinstance(t.slice, ast.Constant) and
+                                                    t.slice.value == '__cached_method___str__' for t in st.targets):
+                n_st += 1
+                got = _call_deps(f.node, st.value, st)
+                ck.decide(need <= got, R, f'{f.qualname}:{src(st.value)[:40]}', sorted(got & need),
+                          f'{f.qualname} stores `{src(st.value)[:60]}` into the __str__ cache; it is composed from {sorted(got & need)} but __str__ itself composes '
+                          f'{sorted(need)}: after this method ran first, str()/hash()/== serve a string without {sorted(need - got)}',
+                          file=f.file, line=st.lineno, func=f.qualname, construct=src(st)[:120])
+    ck.count(f'{R}: seeding stores', n_st)
+    ck.floor(R, 2)
+
+
 def _stores_in(node):
     return any(isinstance(n, ast.Subscript) and src(n.value) == 'self.__dict__' and isinstance(n.ctx, ast.Store) for n in ast.walk(node))
 
@@ -654,12 +746,46 @@ def rule_changed_set(ck, repo):
                '(the set that limits hydrogen recalculation), the create-branch and the add-branch name the same atoms, '
                'and fix_structure consumes (self._changed or all atoms) and resets it')
     mc = repo.cls(MOL)
+    # accumulator discipline: the pending set is only ever extended; a plain assignment of a non-None value is allowed only where the
+    # field is known to be None (several deferred edits inside one `with mol:` block accumulate into the same set)
+    n_acc = 0
+    for c in repo.mro(mc):
+        for fs_ in c.methods.values():
+            for f in fs_:
+                parents = {}
+                for p_ in ast.walk(f.node):
+                    for ch in ast.iter_child_nodes(p_):
+                        parents[ch] = p_
+                for a in ast.walk(f.node):
+                    if not (isinstance(a, ast.Assign) and any(src(t) == 'self._changed' for t in a.targets)):
+                        continue
+                    if isinstance(a.value, ast.Constant) and a.value.value is None:
+                        continue
+                    n_acc += 1
+                    merged = any(src(x) == 'self._changed' for x in ast.walk(a.value))
+                    guarded = False
+                    node, p_ = a, parents.get(a)
+                    while p_ is not None:
+                        if isinstance(p_, ast.If):
+                            t = src(p_.test)
+                            in_body = any(node is x or node in list(ast.walk(x)) for x in p_.body)
+                            if (t in ('self._changed is None', 'not self._changed') and in_body) or \
+                                    (t in ('self._changed is not None', 'self._changed') and not in_body):
+                                guarded = True
+                        node, p_ = p_, parents.get(p_)
+                    ck.decide(merged or guarded, 'B7-pending-change-set', f'{f.qualname}:assign:{src(a)[:50]}', 'assignment only where the set is None / merges the old value',
+                              f'{f.qualname} assigns `{src(a)[:70]}` without testing that the pending set is empty: atoms recorded by earlier deferred edits '
+                              f'(inside `with mol:` or _skip_calculation) are dropped and keep stale hydrogen counts',
+                              file=f.file, line=a.lineno, func=f.qualname, construct=src(a)[:100])
+    ck.count('B7: non-None assignments to _changed', n_acc)
     expect = {'add_atom': None, 'add_bond': {'n', 'm'}, 'delete_bond': {'n', 'm'}, 'delete_atom': None}
     for name, want in expect.items():
         f = repo.lookup(mc, name)
         ck.require(f is not None and f.cls is mc, f'MoleculeContainer.{name} vanished')
         ifs = [n for n in ast.walk(f.node) if isinstance(n, ast.If) and src(n.test) in ('self._changed is None', 'self._changed is not None')]
-        ck.require(len(ifs) == 1, f'{name}: `if self._changed is None` bookkeeping not found')
+        if len(ifs) != 1:
+            ck.defer(f'{name}: `if self._changed is None` bookkeeping not found')
+            continue
         i = ifs[0]
         create, add = (i.body, i.orelse) if src(i.test) == 'self._changed is None' else (i.orelse, i.body)
         created = set()
